@@ -3,6 +3,7 @@ package main
 // C16 — packet type dispatch follows the first byte and header flags are preserved.
 
 import (
+	"strconv"
 	"fmt"
 	"go/token"
 	"go/types"
@@ -14,6 +15,11 @@ import (
 
 func init() {
 	register(&PropertyCheck{ID: "C16", Level: "other", Run: checkC16, Canaries: []Canary{
+		{Name: "fixed-header-written-by-a-helper-struct", Silent: true, Edits: []Edit{{"auth.go", "\ti += p.fixed.fill(b, i)      // firstByte header\n\ti += remainingLen.fill(b, i) // remaining length", "\ti += fixedHeader{p.fixed, remainingLen}.fill(b, i)"}, {"disconnect.go", "\ti += p.fixed.fill(b, i)      // firstByte header\n\ti += remainingLen.fill(b, i) // remaining length", "\ti += fixedHeader{p.fixed, remainingLen}.fill(b, i)"}, {"packet.go", "\treturn n + m, err\n}\n", "\treturn n + m, err\n}\n\n// fill writes the first byte and the remaining length at position\n// i. Returns the number of bytes that make up the fixed header.\nfunc (f fixedHeader) fill(b []byte, i int) int {\n\tn := i\n\ti += f.fixed.fill(b, i)        // firstByte header\n\ti += f.remainingLen.fill(b, i) // remaining length\n\treturn i - n\n}\n"}, {"pingreq.go", "\ti += p.fixed.fill(b, i)  // firstByte header\n\ti += vbint(0).fill(b, i) // remaining length none", "\ti += fixedHeader{p.fixed, 0}.fill(b, i) // remaining length none"}, {"pingresp.go", "\ti += p.fixed.fill(b, i)  // firstByte header\n\ti += vbint(0).fill(b, i) // remaining length none", "\ti += fixedHeader{p.fixed, 0}.fill(b, i) // remaining length none"}, {"puback.go", "\ti += p.fixed.fill(b, i)      // firstByte header\n\ti += remainingLen.fill(b, i) // remaining length", "\ti += fixedHeader{p.fixed, remainingLen}.fill(b, i)"}, {"pubcomp.go", "\ti += p.fixed.fill(b, i)      // firstByte header\n\ti += remainingLen.fill(b, i) // remaining length", "\ti += fixedHeader{p.fixed, remainingLen}.fill(b, i)"}, {"pubrec.go", "\ti += p.fixed.fill(b, i)      // firstByte header\n\ti += remainingLen.fill(b, i) // remaining length", "\ti += fixedHeader{p.fixed, remainingLen}.fill(b, i)"}, {"pubrel.go", "\ti += p.fixed.fill(b, i)      // firstByte header\n\ti += remainingLen.fill(b, i) // remaining length", "\ti += fixedHeader{p.fixed, remainingLen}.fill(b, i)"}, {"suback.go", "\ti += p.fixed.fill(b, i)      // firstByte header\n\ti += remainingLen.fill(b, i) // remaining length", "\ti += fixedHeader{p.fixed, remainingLen}.fill(b, i)"}, {"subscribe.go", "\ti += p.fixed.fill(b, i)      // firstByte header\n\ti += remainingLen.fill(b, i) // remaining length", "\ti += fixedHeader{p.fixed, remainingLen}.fill(b, i)"}, {"unsuback.go", "\ti += p.fixed.fill(b, i)      // firstByte header\n\ti += remainingLen.fill(b, i) // remaining length", "\ti += fixedHeader{p.fixed, remainingLen}.fill(b, i)"}, {"unsubscribe.go", "\ti += p.fixed.fill(b, i)      // firstByte header\n\ti += remainingLen.fill(b, i) // remaining length", "\ti += fixedHeader{p.fixed, remainingLen}.fill(b, i)"}}},
+		{Name: "header-helper-sets-a-flag-bit-in-the-first-byte", Rule: "R16.1", Where: "type code", Edits: []Edit{{"auth.go", "\ti += p.fixed.fill(b, i)      // firstByte header\n\ti += remainingLen.fill(b, i) // remaining length", "\ti += fixedHeader{p.fixed, remainingLen}.fill(b, i)"}, {"disconnect.go", "\ti += p.fixed.fill(b, i)      // firstByte header\n\ti += remainingLen.fill(b, i) // remaining length", "\ti += fixedHeader{p.fixed, remainingLen}.fill(b, i)"}, {"packet.go", "\treturn n + m, err\n}\n", "\treturn n + m, err\n}\n\n// fill writes the first byte and the remaining length at position\n// i. Returns the number of bytes that make up the fixed header.\nfunc (f fixedHeader) fill(b []byte, i int) int {\n\tn := i\n\ti += (f.fixed | 1).fill(b, i)        // firstByte header\n\ti += f.remainingLen.fill(b, i) // remaining length\n\treturn i - n\n}\n"}, {"pingreq.go", "\ti += p.fixed.fill(b, i)  // firstByte header\n\ti += vbint(0).fill(b, i) // remaining length none", "\ti += fixedHeader{p.fixed, 0}.fill(b, i) // remaining length none"}, {"pingresp.go", "\ti += p.fixed.fill(b, i)  // firstByte header\n\ti += vbint(0).fill(b, i) // remaining length none", "\ti += fixedHeader{p.fixed, 0}.fill(b, i) // remaining length none"}, {"puback.go", "\ti += p.fixed.fill(b, i)      // firstByte header\n\ti += remainingLen.fill(b, i) // remaining length", "\ti += fixedHeader{p.fixed, remainingLen}.fill(b, i)"}, {"pubcomp.go", "\ti += p.fixed.fill(b, i)      // firstByte header\n\ti += remainingLen.fill(b, i) // remaining length", "\ti += fixedHeader{p.fixed, remainingLen}.fill(b, i)"}, {"pubrec.go", "\ti += p.fixed.fill(b, i)      // firstByte header\n\ti += remainingLen.fill(b, i) // remaining length", "\ti += fixedHeader{p.fixed, remainingLen}.fill(b, i)"}, {"pubrel.go", "\ti += p.fixed.fill(b, i)      // firstByte header\n\ti += remainingLen.fill(b, i) // remaining length", "\ti += fixedHeader{p.fixed, remainingLen}.fill(b, i)"}, {"suback.go", "\ti += p.fixed.fill(b, i)      // firstByte header\n\ti += remainingLen.fill(b, i) // remaining length", "\ti += fixedHeader{p.fixed, remainingLen}.fill(b, i)"}, {"subscribe.go", "\ti += p.fixed.fill(b, i)      // firstByte header\n\ti += remainingLen.fill(b, i) // remaining length", "\ti += fixedHeader{p.fixed, remainingLen}.fill(b, i)"}, {"unsuback.go", "\ti += p.fixed.fill(b, i)      // firstByte header\n\ti += remainingLen.fill(b, i) // remaining length", "\ti += fixedHeader{p.fixed, remainingLen}.fill(b, i)"}, {"unsubscribe.go", "\ti += p.fixed.fill(b, i)      // firstByte header\n\ti += remainingLen.fill(b, i) // remaining length", "\ti += fixedHeader{p.fixed, remainingLen}.fill(b, i)"}}},
+		{Name: "undefined-copies-through-the-raw-data-decoder", Silent: true, Edits: []Edit{{"undefined.go", "\treturn fmt.Sprintf(\"%s %v bytes\",\n\t\tfirstByte(p.fixed).String(), 0,\n\t)\n}\n\nfunc (p *Undefined) Data() []byte { return p.data }\n\nfunc (p *Undefined) WriteTo(w io.Writer) (int64, error) {\n\treturn 0, fmt.Errorf(\"cannot write %T\", p)\n}\n\nfunc (p *Undefined) UnmarshalBinary(data []byte) error {\n\tp.data = make([]byte, len(data))\n\tcopy(p.data, data)", "\t// the size is never known, a constant 0 is shown\n\treturn firstByte(p.fixed).String() + \" 0 bytes\"\n}\n\nfunc (p *Undefined) Data() []byte { return p.data }\n\nfunc (p *Undefined) WriteTo(w io.Writer) (int64, error) {\n\treturn 0, fmt.Errorf(\"cannot write %T\", p)\n}\n\n// UnmarshalBinary keeps a private copy of the given data, see Data.\nfunc (p *Undefined) UnmarshalBinary(data []byte) error {\n\t// rawdata already knows how to copy everything it's given\n\tvar frame rawdata\n\tif err := frame.UnmarshalBinary(data); err != nil {\n\t\treturn err\n\t}\n\tp.data = frame"}}},
+		{Name: "dispatch-through-a-table-of-constructors", Silent: true, Edits: []Edit{{"packet.go", "// ReadRemaining reads the reamining data and converts to a control\n// packet.\nfunc (f *fixedHeader) ReadRemaining(r io.Reader) (ControlPacket, error) {\n\tvar p ControlPacket\n\tswitch byte(f.fixed) & 0b1111_0000 {\n\n\tcase PUBLISH:\n\t\tp = &Publish{fixed: f.fixed}\n\n\tcase PUBREL:\n\t\tp = &PubRel{fixed: f.fixed}\n\n\tcase PUBCOMP:\n\t\tp = &PubComp{fixed: f.fixed}\n\n\tcase PUBREC:\n\t\tp = &PubRec{fixed: f.fixed}\n\n\tcase PUBACK:\n\t\tp = &PubAck{fixed: f.fixed}\n\n\tcase CONNECT:\n\t\tp = &Connect{fixed: f.fixed}\n\n\tcase CONNACK:\n\t\tp = &ConnAck{fixed: f.fixed}\n\n\tcase SUBSCRIBE:\n\t\tp = &Subscribe{fixed: f.fixed}\n\n\tcase UNSUBSCRIBE:\n\t\tp = &Unsubscribe{fixed: f.fixed}\n\n\tcase SUBACK:\n\t\tp = &SubAck{fixed: f.fixed}\n\n\tcase UNSUBACK:\n\t\tp = &UnsubAck{fixed: f.fixed}\n\n\tcase PINGREQ:\n\t\tp = &PingReq{fixed: f.fixed}\n\n\tcase PINGRESP:\n\t\tp = &PingResp{fixed: f.fixed}\n\n\tcase DISCONNECT:\n\t\tp = &Disconnect{fixed: f.fixed}\n\n\tcase AUTH:\n\t\tp = &Auth{fixed: f.fixed}\n\n\tdefault:\n\t\tp = &Undefined{}\n\t}", "// packetMakers holds one constructor for each control packet type,\n// indexed by the type number, ie. the upper four bits of the first\n// byte. The constructors get the entire first byte so the flags are\n// kept, only the forbidden type 0 yields an Undefined without them.\nvar packetMakers = [16]func(fixed bits) ControlPacket{\n\tUNDEFINED >> 4:   func(bits) ControlPacket { return &Undefined{} },\n\tCONNECT >> 4:     func(fixed bits) ControlPacket { return &Connect{fixed: fixed} },\n\tCONNACK >> 4:     func(fixed bits) ControlPacket { return &ConnAck{fixed: fixed} },\n\tPUBLISH >> 4:     func(fixed bits) ControlPacket { return &Publish{fixed: fixed} },\n\tPUBACK >> 4:      func(fixed bits) ControlPacket { return &PubAck{fixed: fixed} },\n\tPUBREC >> 4:      func(fixed bits) ControlPacket { return &PubRec{fixed: fixed} },\n\tPUBREL >> 4:      func(fixed bits) ControlPacket { return &PubRel{fixed: fixed} },\n\tPUBCOMP >> 4:     func(fixed bits) ControlPacket { return &PubComp{fixed: fixed} },\n\tSUBSCRIBE >> 4:   func(fixed bits) ControlPacket { return &Subscribe{fixed: fixed} },\n\tSUBACK >> 4:      func(fixed bits) ControlPacket { return &SubAck{fixed: fixed} },\n\tUNSUBSCRIBE >> 4: func(fixed bits) ControlPacket { return &Unsubscribe{fixed: fixed} },\n\tUNSUBACK >> 4:    func(fixed bits) ControlPacket { return &UnsubAck{fixed: fixed} },\n\tPINGREQ >> 4:     func(fixed bits) ControlPacket { return &PingReq{fixed: fixed} },\n\tPINGRESP >> 4:    func(fixed bits) ControlPacket { return &PingResp{fixed: fixed} },\n\tDISCONNECT >> 4:  func(fixed bits) ControlPacket { return &Disconnect{fixed: fixed} },\n\tAUTH >> 4:        func(fixed bits) ControlPacket { return &Auth{fixed: fixed} },\n}\n\n// ReadRemaining reads the reamining data and converts to a control\n// packet.\nfunc (f *fixedHeader) ReadRemaining(r io.Reader) (ControlPacket, error) {\n\t// a byte shifted by four is always a valid index, 0..15\n\tp := packetMakers[byte(f.fixed)>>4](f.fixed)"}}},
+		{Name: "dispatch-table-maps-suback-to-unsuback", Rule: "R16.1", Where: "type code 0x90", Edits: []Edit{{"packet.go", "// ReadRemaining reads the reamining data and converts to a control\n// packet.\nfunc (f *fixedHeader) ReadRemaining(r io.Reader) (ControlPacket, error) {\n\tvar p ControlPacket\n\tswitch byte(f.fixed) & 0b1111_0000 {\n\n\tcase PUBLISH:\n\t\tp = &Publish{fixed: f.fixed}\n\n\tcase PUBREL:\n\t\tp = &PubRel{fixed: f.fixed}\n\n\tcase PUBCOMP:\n\t\tp = &PubComp{fixed: f.fixed}\n\n\tcase PUBREC:\n\t\tp = &PubRec{fixed: f.fixed}\n\n\tcase PUBACK:\n\t\tp = &PubAck{fixed: f.fixed}\n\n\tcase CONNECT:\n\t\tp = &Connect{fixed: f.fixed}\n\n\tcase CONNACK:\n\t\tp = &ConnAck{fixed: f.fixed}\n\n\tcase SUBSCRIBE:\n\t\tp = &Subscribe{fixed: f.fixed}\n\n\tcase UNSUBSCRIBE:\n\t\tp = &Unsubscribe{fixed: f.fixed}\n\n\tcase SUBACK:\n\t\tp = &SubAck{fixed: f.fixed}\n\n\tcase UNSUBACK:\n\t\tp = &UnsubAck{fixed: f.fixed}\n\n\tcase PINGREQ:\n\t\tp = &PingReq{fixed: f.fixed}\n\n\tcase PINGRESP:\n\t\tp = &PingResp{fixed: f.fixed}\n\n\tcase DISCONNECT:\n\t\tp = &Disconnect{fixed: f.fixed}\n\n\tcase AUTH:\n\t\tp = &Auth{fixed: f.fixed}\n\n\tdefault:\n\t\tp = &Undefined{}\n\t}", "// packetMakers holds one constructor for each control packet type,\n// indexed by the type number, ie. the upper four bits of the first\n// byte. The constructors get the entire first byte so the flags are\n// kept, only the forbidden type 0 yields an Undefined without them.\nvar packetMakers = [16]func(fixed bits) ControlPacket{\n\tUNDEFINED >> 4:   func(bits) ControlPacket { return &Undefined{} },\n\tCONNECT >> 4:     func(fixed bits) ControlPacket { return &Connect{fixed: fixed} },\n\tCONNACK >> 4:     func(fixed bits) ControlPacket { return &ConnAck{fixed: fixed} },\n\tPUBLISH >> 4:     func(fixed bits) ControlPacket { return &Publish{fixed: fixed} },\n\tPUBACK >> 4:      func(fixed bits) ControlPacket { return &PubAck{fixed: fixed} },\n\tPUBREC >> 4:      func(fixed bits) ControlPacket { return &PubRec{fixed: fixed} },\n\tPUBREL >> 4:      func(fixed bits) ControlPacket { return &PubRel{fixed: fixed} },\n\tPUBCOMP >> 4:     func(fixed bits) ControlPacket { return &PubComp{fixed: fixed} },\n\tSUBSCRIBE >> 4:   func(fixed bits) ControlPacket { return &Subscribe{fixed: fixed} },\n\tSUBACK >> 4:      func(fixed bits) ControlPacket { return &UnsubAck{fixed: fixed} },\n\tUNSUBSCRIBE >> 4: func(fixed bits) ControlPacket { return &Unsubscribe{fixed: fixed} },\n\tUNSUBACK >> 4:    func(fixed bits) ControlPacket { return &UnsubAck{fixed: fixed} },\n\tPINGREQ >> 4:     func(fixed bits) ControlPacket { return &PingReq{fixed: fixed} },\n\tPINGRESP >> 4:    func(fixed bits) ControlPacket { return &PingResp{fixed: fixed} },\n\tDISCONNECT >> 4:  func(fixed bits) ControlPacket { return &Disconnect{fixed: fixed} },\n\tAUTH >> 4:        func(fixed bits) ControlPacket { return &Auth{fixed: fixed} },\n}\n\n// ReadRemaining reads the reamining data and converts to a control\n// packet.\nfunc (f *fixedHeader) ReadRemaining(r io.Reader) (ControlPacket, error) {\n\t// a byte shifted by four is always a valid index, 0..15\n\tp := packetMakers[byte(f.fixed)>>4](f.fixed)"}}},
 		{Name: "pubrec-pubrel-swapped", Rule: "R16.1", Where: "0x50", Edits: []Edit{
 			{"packet.go", "\tcase PUBREL:\n\t\tp = &PubRel{fixed: f.fixed}", "\tcase PUBREL:\n\t\tp = &PubRec{fixed: f.fixed}"},
 			{"packet.go", "\tcase PUBREC:\n\t\tp = &PubRec{fixed: f.fixed}", "\tcase PUBREC:\n\t\tp = &PubRel{fixed: f.fixed}"}}},
@@ -91,9 +97,56 @@ func (p *Prog) firstEmissionCallee(fn *ssa.Function, depth int) *ssa.Function {
 			}
 			return p.firstEmissionCallee(sc, depth+1)
 		}
+		// a method that only composes emissions of its own (`fixedHeader{p.fixed, n}.fill(b, i)`): its first one
+		if sc.Signature.Recv() != nil && isFillFamily(sc) && sc.Blocks != nil {
+			if buf, _, sems, _ := emissionsOf(p, sc); buf != nil && len(sems) > 0 && !writesBufferDirectly(sc, buf) {
+				if rt, _ := types.Unalias(sc.Signature.Recv().Type()).(*types.Named); rt == nil || p.wireKindOf(rt) == "" {
+					return p.firstEmissionCallee(sc, depth+1)
+				}
+			}
+		}
 		return sc
 	}
 	return nil
+}
+
+// firstEmissionFieldByEvaluation: the field of the packet whose value is the first thing the encoder emits, read
+// off the provenance of the first event of the encoder's trace on the bare packet (a value copied into a local
+// composite literal on the way keeps its provenance).
+func (p *Prog) firstEmissionFieldByEvaluation(tn string, fill *ssa.Function) (int, bool) {
+	var spec *stateSpec
+	for _, sp := range p.stateSpecs(tn) {
+		if sp.name == "none" {
+			sp := sp
+			spec = &sp
+		}
+	}
+	if spec == nil {
+		return 0, false
+	}
+	st, _ := p.buildStateSpec(tn, *spec, nil, nil)
+	if st == nil {
+		return 0, false
+	}
+	evs, _, why := p.encoderTrace(st, fill)
+	if why != "" {
+		return 0, false
+	}
+	for _, e := range evs {
+		if e.Width == 0 {
+			continue
+		}
+		pre := st.Recv + ".f"
+		if !strings.HasPrefix(e.Src, pre) {
+			return 0, false
+		}
+		k, err := strconv.Atoi(e.Src[len(pre):])
+		if err != nil {
+			return 0, false
+		}
+		return k, true
+	}
+	return 0, false
 }
 
 // firstEmissionValue: the value (in fn's own terms) whose encoding fn emits at its entry offset.  When that
@@ -176,6 +229,9 @@ func checkC16(p *Prog, c *Check) {
 			ef, okE := 0, false
 			if fill != nil {
 				ef, okE = p.firstEmissionField(fill)
+				if !okE {
+					ef, okE = p.firstEmissionFieldByEvaluation(tn, fill)
+				}
 			}
 			if !okE || !okH {
 				c.Unk("R16.1", cons, pos, "cannot determine which field "+tn+"'s encoder emits first / its constructor puts the type code in")
@@ -464,6 +520,15 @@ func checkC16(p *Prog, c *Check) {
 									good = true
 								}
 							}
+							// … or what a decoder of the library, handed the argument, has put into a local of this
+							// function — when that decoder itself allocates len(data) bytes and copies the argument
+							if !good && data != nil {
+								if al := loadedLocal(x.Val); al != nil {
+									if dec := soleWriterDecoder(p, um, al, data); dec != nil && freshCopyOfArg(p, dec) {
+										good, stored, copied = true, true, true
+									}
+								}
+							}
 							if !good && other == "" {
 								other = "the field Data() returns is also stored with " + describeVal(x.Val) + " at " + posOf(p, x) + ": what Data() returns is then not the frame's body as it arrived (cut, replaced or re-sliced)"
 							}
@@ -528,4 +593,83 @@ func checkC16(p *Prog, c *Check) {
 			}
 		}
 	}
+}
+
+// loadedLocal: v is (a type change of) a load of a local variable: that variable.
+func loadedLocal(v ssa.Value) *ssa.Alloc {
+	for i := 0; i < 4; i++ {
+		switch x := v.(type) {
+		case *ssa.ChangeType:
+			v = x.X
+		case *ssa.UnOp:
+			if x.Op != token.MUL {
+				return nil
+			}
+			al, _ := x.X.(*ssa.Alloc)
+			return al
+		default:
+			return nil
+		}
+	}
+	return nil
+}
+
+// soleWriterDecoder: the only thing fn does with the local al, apart from loading it, is to hand its address as
+// the receiver to one UnmarshalBinary of the library together with data: that decoder.
+func soleWriterDecoder(p *Prog, fn *ssa.Function, al *ssa.Alloc, data *ssa.Parameter) *ssa.Function {
+	var dec *ssa.Function
+	if al.Referrers() == nil {
+		return nil
+	}
+	for _, r := range *al.Referrers() {
+		switch x := r.(type) {
+		case *ssa.DebugRef, *ssa.UnOp:
+		case *ssa.Call:
+			sc := x.Call.StaticCallee()
+			if sc == nil || sc.Name() != "UnmarshalBinary" || !p.inMQ(sc) || len(x.Call.Args) != 2 || x.Call.Args[0] != ssa.Value(al) || x.Call.Args[1] != ssa.Value(data) || dec != nil {
+				return nil
+			}
+			dec = sc
+		default:
+			return nil
+		}
+	}
+	return dec
+}
+
+// freshCopyOfArg: the decoder stores, through its receiver, a fresh slice of len(data) and fills it by copy from
+// data — and stores nothing else there.
+func freshCopyOfArg(p *Prog, d *ssa.Function) bool {
+	if len(d.Params) != 2 || len(d.Blocks) == 0 {
+		return false
+	}
+	pr := NewProver(p, d)
+	recv, data := d.Params[0], d.Params[1]
+	var st *ssa.Store
+	copied := false
+	for _, b := range d.Blocks {
+		for _, ins := range b.Instrs {
+			switch x := ins.(type) {
+			case *ssa.Store:
+				if x.Addr != ssa.Value(recv) || st != nil {
+					return false
+				}
+				ms, ok := stripConvs(x.Val).(*ssa.MakeSlice)
+				if !ok || !pr.lin(ms.Len).equal(pr.lenOf(data)) {
+					return false
+				}
+				st = x
+			case *ssa.Call:
+				if bi, ok := x.Call.Value.(*ssa.Builtin); ok && bi.Name() == "copy" && x.Call.Args[1] == ssa.Value(data) {
+					if ld, ok := stripConvs(x.Call.Args[0]).(*ssa.UnOp); ok && ld.X == ssa.Value(recv) && st != nil && st.Block().Dominates(x.Block()) {
+						copied = true
+					}
+					if ms, ok := stripConvs(x.Call.Args[0]).(*ssa.MakeSlice); ok && st != nil && stripConvs(st.Val) == ssa.Value(ms) {
+						copied = true
+					}
+				}
+			}
+		}
+	}
+	return st != nil && copied
 }
